@@ -42,11 +42,11 @@ CHECKS = {
             "same-game / other-game / deeper-then-shallower histories; TLC judges every announced move against Chess!Legal.", "6-C06", SEARCH_NOTE),
     "C07": ("TLC-enumerated stop classes (SearchCtl.tla StopNow) + exhaustive sweep of the stop poll index 0..total on the real search via the poll hook; TraceSearch.tla judges legality and polls-after-stop <= 1",
             "For each sampled position the real search is re-run once per node-entry poll index (every index from 0 to the end of the search "
-            "within the cap), fresh and warmed tables; TLC requires a legal move whenever one exists and at most one poll after the flag went down.", "6-C07", SEARCH_NOTE),
+            "within the cap), fresh and warmed tables; TLC requires a legal move whenever one exists and at most one poll after the flag went down. The same sweep runs on the real binary (go infinite with the stop flag lowered by the hook at the n-th node entry, game-like flows), so the check is decided even if the in-process harness no longer builds.", "6-C07", SEARCH_NOTE),
     "C08": ("SearchCtl.tla invariants (depth <= limit, counter ranges) and liveness (search terminates) checked by TLC; real search run on limit pairs, limits to 255, unlimited runs; TraceSearch.tla judges reported depths",
             "TLC proves on the design model that no history makes a limited search exceed its limit or run on; the real search is run on all "
             "deeper-then-shallower limit pairs, limit classes up to 255 on tiny positions and unlimited runs under a watchdog; TLC requires every "
-            "reported depth <= limit, return without external stop once the limit is reached, and no panic.", "6-C08",
+            "reported depth <= limit, return without external stop once the limit is reached, and no panic. Includes the TLC family FORCED (lines in which each side has one legal move, for ever) on the release and the checked build.", "6-C08",
             SEARCH_NOTE + " A watchdog stop while all reported depths are below the limit is treated as a slow search (no verdict)."),
     "C09": ("RefSearch.tla (unpruned negamax with the named leaf rule) evaluated by TLC on full game trees dumped from the real engine, compared with the table-less optimised search under several ordering states; Pvs.tla: the window / re-search algorithm = negamax on all bounded abstract trees",
             "For each (position, depth) the whole tree is dumped with the engine's generator and evaluation; the real search runs with the table "
@@ -57,7 +57,7 @@ CHECKS = {
     "C10": ("Chess.tla as independent mate solver (MateIn1Moves, KeepsMate2Moves, dead roots) run by TLC over a generated family; real search judged by TraceSearch.tla",
             "TLC classifies every member of the K+Q/R v K rim family (and fixed extra positions) into mate-in-1, forced mate-in-2, checkmated, "
             "stalemated; the real search runs from a fresh table to depth 3-5 / 5-6 / unlimited; TLC requires a mating / mate-keeping move, "
-            "self-termination once a mate score is reported, and no move in dead positions.", "6-C10", SEARCH_NOTE),
+            "self-termination once a mate score is reported, and no move in dead positions. Design-level note (not a verdict): the table entries a real search leaves are judged by TLC against the exhaustive value of their nodes (PvsTable!InvSound via RefSearch!TT).", "6-C10", SEARCH_NOTE),
     "C11": ("Fen.tla printer and parser judged against every exported FEN of every trace state; re-import observed through the snapshot hook",
             "TLC checks printer/parser are inverse on all explored states; for every state of families and recorded games the exported text "
             "must equal FenFields(snapshot), be a well-formed six-field FEN, parse to the position, and its re-import must give the same "
@@ -87,8 +87,9 @@ CHECKS = {
     "C17": ("Fen.tla three-way classifier (MustAccept/MustReject/Grey) judging Game::new and the binary's `position fen` on exhaustive single-character edits; FenScan.tla: the scanner state machine on every short string",
             "For each base FEN every single-character deletion/insertion/replacement over an alphabet of character classes, plus random "
             "multi-edits, is imported under catch_unwind; TLC classifies each string and requires: never a panic, MustReject refused, "
-            "MustAccept imported as Parse(text) with its legal moves.", "6-C17",
-            "Grey inputs produce no verdict. The grammar in spec/Fen.tla is the trusted statement of 'well-formed'."),
+            "MustAccept imported as Parse(text) with its legal moves. A text whose only flaw is a castling or en-passant claim the board "
+            "contradicts may be refused; if imported it is judged like a well-formed one (Fen!ImportJudged).", "6-C17",
+            "Other Grey inputs produce no verdict. The grammar in spec/Fen.tla is the trusted statement of 'well-formed'."),
     "C18": ("TraceSearch.tla Playable(root, pv) judged on every info pv line of searches run over shared-table histories",
             "Every principal variation printed by the real search (captured per search) over same-game, other-game, deeper/shallower and "
             "aborted-search table histories is replayed move by move on Chess.tla; each move must be legal where it is played.", "6-C18", SEARCH_NOTE),
@@ -99,7 +100,7 @@ CHECKS = {
             "Reproducibility is decided over the perturbations exercised; there is no model of the allocator or hash-map internals."),
     "C20": ("Show.tla expected diagram / FEN line / hash line / move-record tokens judged on the engine's Display output along recorded games",
             "Along games played into the record (all move kinds, all four promotion pieces with and without capture) TLC compares the "
-            "transliterated diagram, the Fen and Hash lines and every record token with what Show.tla prescribes.", "6-C20", GAME_NOTE),
+            "transliterated diagram, the Fen and Hash lines and every record token with what Show.tla prescribes. On the real binary, show is also judged around searches: whatever position command was accepted last is what show depicts, with each schedule window stretched in turn.", "6-C20", GAME_NOTE),
 }
 
 PENDING = {}
